@@ -1946,6 +1946,11 @@ func (bc *Blockchain) AddBlock(block *block.Block) error {
 // AddHeaders processes the given headers and add them to the
 // HeaderHashList. It expects headers to be sorted by index.
 func (bc *Blockchain) AddHeaders(headers ...*block.Header) error {
+	// Headers and blocks are processed one at a time: AddBlock chooses between
+	// verifying the header of its block and comparing it with the known one by
+	// the header height, which must not change under its feet.
+	bc.addLock.Lock()
+	defer bc.addLock.Unlock()
 	return bc.addHeaders(!bc.config.SkipBlockVerification, headers...)
 }
 
